@@ -209,6 +209,7 @@ func (p c15) Run(c *core.Ctx, idx int) {
 		o.AugSub = idx%6 == 1            // the augments written in a submodule of the augmenting module: still that module's nodes
 		o.Sub = idx%3 == 2 || idx%6 == 4 // some top-level nodes written in a submodule: they are the module's own in data
 		o.Presence = true
+		o.ListsOfAll = true
 		o.MaxDepth = 2 + r.Intn(3)
 		if idx%4 == 3 {
 			o.Types = []string{"string", "enumeration", "empty", "bits", "identityref", "binary", "boolean", "uint64", "decimal64"}
